@@ -322,7 +322,8 @@ def ensure_replay():
 BATTERIES = {
  'C01': [dict(sign=[1, 1, 1, 1, 1, 1], dof=6, part='A', search='true'), dict(sign=[-1, 1, -1, -1, 1, -1], off=[0.1, -0.2, 0.3, 0.0, 0.25, -0.4], dof=6, part='B', search='true', prop='C01')],
  'C02': [dict(sign=[1, 1, 1, 1, 1, 1]), dict(sign=[-1, 1, -1, -1, 1, -1], off=[0.1, -0.2, 0.3, 0.0, 0.25, -0.4])],
- 'C03': [dict(params=[0.15, -0.11, 0.05, 0.55, 0.61, 0.66, 0.12], off=[0.1, -0.2, 0.3, 0.0, 0.25, -0.4], sign=[-1, 1, -1, -1, 1, -1], joints=[0.3, 14.4, -0.5, 0.6, -27.7, -0.8])],
+ 'C03': [dict(params=[0.15, -0.11, 0.05, 0.55, 0.61, 0.66, 0.12], off=[0.1, -0.2, 0.3, 0.0, 0.25, -0.4], sign=[-1, 1, -1, -1, 1, -1], joints=[0.3, 14.4, -0.5, 0.6, -27.7, -0.8]),
+         dict(params=[0.15, -0.11, 0.05, 0.55, 0.61, 0.66, 0.12], off=[0.1, -0.2, 0.3, 0.0, 0.25, -0.4], sign=[-1, 1, -1, -1, 1, -1], joints=[0.3, 14.4, -0.5, 0.6, -27.7, -0.8], dof=5)],
  'C04': [dict(sign=[1, 1, 1, 1, 1, 1], dof=6, search='true')],
  'C05': [dict(sign=[1, 1, 1, 1, 1, 1], search='true'), dict(sign=[1, 1, 1, 1, -1, 1], off=[0.0, 0.0, 0.0, 0.0, 0.4, 0.0], search='true'), dict(sign=[1, 1, 1, -1, 1, 1], search='true'), dict(sign=[-1, 1, 1, -1, 1, -1], search='true')],
  'C06': [dict(sign=[1, 1, 1, 1, 1, 1], dof=5, search='true'), dict(sign=[1, 1, 1, 1, 1, 1], dof=6, search='true')],
